@@ -38,20 +38,22 @@ structure Sel where
   start : List Nat := []
   startAll : Bool := false
   endA : Bool := false
+  endL : List Nat := []
   tid : Bool := false
   data : Bool := false
   lookups : Bool := false
   gstr : Bool := false
   tpids : Bool := false
   tnames : Bool := false
-  host : Bool := false
+  host : Bool := false          -- signals / address families / socket kinds / SOL_SOCKET
+  hostErrno : Bool := false     -- errno.errorcode
   fields : Bool := false
   deriving Repr, DecidableEq
 
 /-- Every window/host/field read of `e` is permitted by `s`. -/
 def within (s : Sel) : Expr → Bool
   | .startArg k => s.startAll || s.start.contains k
-  | .endArg _ => s.endA
+  | .endArg k => s.endA || s.endL.contains k
   | .startTid => s.tid
   | .field _ => s.fields
   | .int _ | .strLit _ | .bool _ | .none | .memberConst _ _ | .nilList => true
@@ -62,7 +64,7 @@ def within (s : Sel) : Expr → Bool
   | .band a b | .bor a b | .shr a b | .shl a b | .cmp _ a b | .andE a b | .orE a b | .inList a b
   | .cat a b => within s a && within s b
   | .ite c t e => within s c && within s t && within s e
-  | .hostEnum _ e | .hostHas _ e | .hostGet _ e => s.host && within s e
+  | .hostEnum t e | .hostHas t e | .hostGet t e => (if t = .errno then s.hostErrno else s.host) && within s e
   | .hostSolSocket => s.host
   | .lookupCount | .lookupPath _ | .lookupVnode _ | .lookupPathOrEmpty | .lookupRestPathOrEmpty
   | .lookupVnodeOrZero => s.lookups
